@@ -1029,11 +1029,6 @@ fn delivered_words(entries: &[Entry], mode: Mode) -> (Option<u64>, Option<u64>) 
 
 // ---------------------------------------------------------------- generation
 
-pub const UNKNOWN_NAMES: &[&str] = &[
-    "secs", "nanos", "Hi", "LO", "hi ", " lo", "", "lo\0", "h", "hii", "low", "high", "hi\u{301}", "ｈｉ", "value", "0", "1",
-    "a-rather-long-field-name-that-no-struct-would-reasonably-have-0123456789",
-];
-
 fn rand_slot(r: &mut Rng) -> Slot {
     match r.below(8) {
         0 => Slot::F64(r.next_u64()),
@@ -1156,10 +1151,10 @@ pub fn generate(r: &mut Rng, hi: u64, lo: u64, other: (u64, u64)) -> DeCase {
                 3 => StorageFault::DropEntry { entry: r.usize_below(2) },
                 4 | 5 => StorageFault::InsertUnknown {
                     at: r.usize_below(3),
-                    name: (*r.pick(UNKNOWN_NAMES)).to_string(),
+                    name: crate::vocab::unknown_name(r),
                     slot: if r.bool() { Slot::F64(0) } else { rand_slot(r) },
                 },
-                _ => StorageFault::RenameKey { entry: r.usize_below(2), name: (*r.pick(UNKNOWN_NAMES)).to_string() },
+                _ => StorageFault::RenameKey { entry: r.usize_below(2), name: crate::vocab::unknown_name(r) },
             }),
             1 | 2 if fam_word => Some(if r.chance(1, 3) {
                 let bit = match r.below(4) {
